@@ -6,7 +6,7 @@ import shutil
 import sys
 import tempfile
 
-from .. import cfggen, cfgrun, cfgstream, core, pkggen, schemafam as F
+from .. import cfggen, cfgrun, cfgstream, core, elabrun, pkggen, schemafam as F
 from ..sexp import enc
 
 RULE = ("(a) generated schemas using sectiontype extends (chains up to 3, key type / datatype overrides, wildcard defaults with "
@@ -77,12 +77,14 @@ def run(ctx):
     rng = ctx.rng
     n = 250 if ctx.thorough() else 30
     # ---------------------------------------------------------------- (a) sectiontype extends
+    model_docs = []
     for _ in range(n):
         sd = cfggen.gen_schema(rng)
         if not any((not t.abstract) and t.extends for t in sd.types):
             continue
         ex = expand_extends(sd)
         xa, xb = F.render_xml(sd), F.render_xml(ex)
+        model_docs.extend([xa, xb])
         try:
             ra, rb = F.load_real(sd), F.load_real(ex)
         except Exception as e:
@@ -108,6 +110,8 @@ def run(ctx):
             ctx.violate("a schema using extends behaves differently from its expansion on %r" % (bad[0],),
                         {"composed": xa, "expanded": xb, "lines": bad[0], "composed_outcome": bad[1], "expanded_outcome": bad[2]},
                         signature="C11:extends:behaviour")
+    # the Lean model of the schema loader on the composed documents and on their expansions
+    elabrun.compare(ctx, "extends", model_docs)
     # directed: a derived type overriding the key type over a base whose fixed key name is not a fixed point of the new key type
     comp = ("<schema><sectiontype name='b' keytype='identifier'><key name='Foo' attribute='foo_'/></sectiontype>"
             "<sectiontype name='d' extends='b' keytype='basic-key'><key name='own'/></sectiontype><section type='d' name='*' attribute='d'/></schema>")
@@ -180,6 +184,7 @@ def _prefixes(ctx, rng, stem):
          "<section type='d' name='*' attribute='d'/></schema>" % (S, S, S)),
     ]
     texts = ["a x\nb y\n", "<t>\nk v\nj w\n</t>\ntop z\n", "<t>\nAb v\n</t>\n", "<d>\nk 1\nj 2\n</d>\n", "<t/>\n", ""]
+    elabrun.compare(ctx, "prefix", [x for pair in cases for x in pair])
     for comp, exp in cases:
         ctx.evaluations += 1
         ctx.nontriv(comp)
@@ -219,6 +224,7 @@ def _schema_extends(ctx, rng, root):
         comp = "<schema extends='%s'%s>%s</schema>" % (" ".join(bases), dt, own)
         exp = "<schema keytype='identifier'%s>%s%s</schema>" % (dt, merged, own)
         w("top.xml", comp)
+        elabrun.compare(ctx, "schema-extends", [comp, exp], base_dir=d, url="file://" + os.path.join(d, "top.xml"))
         ctx.evaluations += 1
         ctx.nontriv(comp)
         try:
@@ -283,6 +289,7 @@ def _components(ctx, rng, pk):
         ("<schema><import package='%s'/><import package='%s'/>%s</schema>" % (cyb, cya, body), cyc_inplace % (_ty("cya") + _ty("cyb"))),
         ("<schema><import package='%s'/><import package='%s'/>%s</schema>" % (cys, cys, body), cyc_inplace % _ty("cys")),
     ]
+    elabrun.compare(ctx, "components", [x for pair in cyc_variants for x in pair] + variants + [inplace])
     for v, inpl in cyc_variants:
         ctx.evaluations += 1
         ctx.nontriv(v)
